@@ -128,7 +128,7 @@ def regrid(ctx, rng, xr, utils):
         tht = th.copy() if which in ("dir", "both") else None
     else:
         if mode in ("freq", "both", "like"):
-            kind = str(rng.choice(["finer", "coarser", "shifted", "below", "above", "below_above"]))
+            kind = str(rng.choice(["finer", "coarser", "shifted", "below", "above", "below_above", "just_above", "subset"]))
             n = {"finer": 2 * nf + 1, "coarser": max(2, nf // 2 + 1)}.get(kind, nf + 1)
             lo, hi = f.min(), f.max()
             if kind in ("below", "below_above"):
@@ -138,18 +138,29 @@ def regrid(ctx, rng, xr, utils):
             if kind == "shifted":
                 lo, hi = lo * 1.03, hi * 0.97
             ft = np.linspace(lo, hi, n)
+            if kind == "just_above":
+                # the source's own nodes plus one a hair above the top source frequency: that node holds no energy
+                ft = np.concatenate([np.sort(f), [f.max() * (1 + float(rng.choice([1e-6, 3e-6, 9e-6])))]])
+            elif kind == "subset" and nf >= 3:
+                # a thinned or cropped selection of the source's own nodes: still a regridding (the measured Hs is kept)
+                fs_ = np.sort(f)
+                ft = fs_[::2] if rng.random() < 0.5 else fs_[:max(2, int(rng.integers(2, nf)))]
         else:
             kind = "none"
         if mode in ("dir", "both", "like"):
             ndt = int(rng.choice([4, 8, 12, 18, 36, 72]))
             ddt = 360.0 / ndt
             tht = float(rng.choice([0.0, ddt / 2, rng.uniform(0, ddt)])) + ddt * np.arange(ndt)
-            if "gap" not in stored and stored != "dup360" and rng.random() < 0.25:
+            if "gap" not in stored and stored != "dup360" and nd >= 6 and rng.random() < 0.15:
+                # every second / third source direction: a subset of the source's own nodes
+                tht = np.sort(th)[int(rng.integers(0, 2))::int(rng.choice([2, 3]))]
+                kind += "+subsetdirs"
+            elif "gap" not in stored and stored != "dup360" and rng.random() < 0.25:
                 # the target holds exactly the source's direction bins, stored in another order
                 tht = np.sort(th)
                 kind += "+samedirs"
             u = rng.random()
-            if u < 0.15:
+            if u < 0.15 and len(tht) > 1:
                 tht = np.roll(tht, int(rng.integers(1, len(tht))))
             elif u < 0.3:
                 tht = tht[::-1].copy()
